@@ -72,6 +72,10 @@ def stream(ctx, n, order, tts, positions=None, total=None):
                     e = M.op('is_essential', u, j)
                     if e != (j in sup):
                         ctx.violation('C10:is_essential', f'is_essential({j}) = {e} for {t:#x}', M.case())
+                # a name that is not declared is documented as "not essential"
+                e = M.op('is_essential', u, n + 50)
+                if e is not False:
+                    ctx.violation('C10:is_essential', f'is_essential(undeclared) = {e} for {t:#x}', M.case())
                 # count
                 nsat = T.count(t) >> (n - k)   # models over the support
                 for nn in [None] + list(range(0, k + 4)):
